@@ -98,6 +98,17 @@ def concretise(cell, tid, rng):
     return job
 
 
+def dense_job(tid, rng, coef):
+    """Dense data on the library's own calculation grid; widths of merged configurations (a wide block inside)."""
+    lo = rng.choice([0.05, 0.1])
+    hi = lo + rng.choice([0.08, 0.1])
+    s1 = rng.choice([0.004, 0.006])
+    return {"tid": tid, "op": "ladder_default", "cell": {"cls": "pinhole-default-grid", "coef": coef}, "lo": lo, "hi": hi,
+            "s1": s1, "s2": 3.0 * s1, "wide": rng.choice([[0.55, 0.85], [0.1, 0.4], [0.8, 0.95]]),
+            "coef": [float(c) for c in coef],
+            "rungs": [{"h": s1 * 0.093 * 2.0 / (2 ** k)} for k in range(3)]}
+
+
 def classify(job, clause, detail):
     key = {"cls": job["cell"]["cls"], "clause": clause}
     m = re.search(r'accuracy\\*", \\*"(\w+)', detail)
@@ -115,7 +126,13 @@ def run_jobs(chk, jobs, label):
         events = sorted((e for o in outs for e in o), key=lambda e: e["tid"])
     finally:
         shutil.rmtree(work, ignore_errors=True)
-    by_tid = {j["tid"]: j for j in jobs}
+    by_tid = {}
+    for j in jobs:
+        if j["op"] == "ladder_default":          # one event per rung, tid*10 + rung
+            for k in range(len(j["rungs"])):
+                by_tid[j["tid"] * 10 + k] = j
+        else:
+            by_tid[j["tid"]] = j
     if set(e["tid"] for e in events) != set(by_tid):
         raise vlib.Machinery("worker lost events")
     for e in events:
@@ -151,7 +168,7 @@ def run_jobs(chk, jobs, label):
             tot[ks] = tot.get(ks, 0) + cnt
     for j in jobs:
         c = j["cell"]
-        chk.case([c, j.get("q", j.get("qx"))[0]], True, sample={"cell": c})
+        chk.case([c, (j.get("q") or j.get("qx") or [j.get("lo")])[0], j.get("wide")], True, sample={"cell": c})
     for e in events:
         e["_accepted"] = e["tid"] not in rejected_tids
     return events
@@ -163,7 +180,7 @@ def corrupted_trace_selftest(chk, events):
     cases = []
     for ev_name in ("Ladder", "Ladder2D"):
         for e in events:
-            if e.get("_accepted") and e["ev"] == ev_name and not e["raised"]:
+            if e.get("_accepted") and e["ev"] == ev_name and not e["raised"] and len(e["rungs"]) >= 3:
                 a = copy.deepcopy(e)
                 a["rungs"][-1]["out"][0] = repr(float(a["rungs"][-1]["out"][0]) * 1.05)
                 cases.append((a, "converges"))
@@ -218,6 +235,8 @@ def run(chk, args):
         rng.shuffle(g)
         cells += g[:16]
     jobs = [concretise(c, k + 1, rng) for k, c in enumerate(cells)]
+    polys = [["0.0", "1.0"], ["1.0", "2.0", "3.0"], ["0.0", "0.0", "0.0", "1.0"], ["2.0", "-1.0", "4.0", "1.0"]]
+    jobs += [dense_job(len(jobs) + 1 + k, rng, polys[k % len(polys)]) for k in range(24 if thorough else 4)]
     chk.notes["ladders"] = len(jobs)
     events = run_jobs(chk, jobs, "ladders")
     corrupted_trace_selftest(chk, events)
